@@ -236,7 +236,8 @@ def shrink_case(sub, case, bucket, max_evals):
                 cur = _get(best, path)
             except (KeyError, IndexError, TypeError):
                 continue
-            if kind == "list" and len(cur) > 0:
+            if kind == "list" and len(cur) > 0 and not isinstance(cur[0], str):
+                # lists that start with a string are tagged tuples (terms, AST nodes, operations): their arity is fixed
                 n = len(cur)
                 chunk = max(1, n // 2)
                 while chunk >= 1:
